@@ -50,9 +50,34 @@ func genRestructuringHistory(t *rapid.T) txh.History {
 	return h
 }
 
+// genMultiStoreValuesHistory: 2-3 stores that keep values outside the node (separate segment or actively persisted,
+// cached or not); the victim adds and updates items in each of them, so that its commit writes value blobs store by
+// store and a failure can fall between two stores.
+func genMultiStoreValuesHistory(t *rapid.T) txh.History {
+	h := txh.History{HashMod: rapid.SampledFrom([]int{1, 3}).Draw(t, "hashMod"), UUIDSeed: rapid.Uint64().Draw(t, "uuidSeed")}
+	ns := rapid.IntRange(2, 3).Draw(t, "stores")
+	var seed, ops []txh.Op
+	for i := 0; i < ns; i++ {
+		h.Stores = append(h.Stores, txh.StoreOpts{Name: fmt.Sprintf("st%d", i), Slot: rapid.SampledFrom([]int{4, 8}).Draw(t, "slot"), Unique: true,
+			Placement: rapid.SampledFrom([]int{1, 1, 2, 3, 4}).Draw(t, "placement")})
+		seed = append(seed, txh.Op{S: i, Kind: "add", K: 1, Tag: fmt.Sprintf("s%d", i), Size: 1})
+		for j, n := 0, rapid.IntRange(1, 2).Draw(t, fmt.Sprintf("adds%d", i)); j < n; j++ {
+			ops = append(ops, txh.Op{S: i, Kind: "add", K: 10 + j, Tag: fmt.Sprintf("v%d.%d", i, j), Size: 10})
+		}
+		if rapid.Bool().Draw(t, fmt.Sprintf("upd%d", i)) {
+			ops = append(ops, txh.Op{S: i, Kind: "update", K: 1, Tag: fmt.Sprintf("u%d", i), Size: 10})
+		}
+	}
+	h.Txns = []txh.TxnProg{{Mode: sop.ForWriting, End: "commit", Ops: seed}, {Mode: sop.ForWriting, End: "commit", Ops: ops}}
+	return h
+}
+
 func genFaultHistory(t *rapid.T, g txh.GenOpts) txh.History {
-	if rapid.IntRange(0, 3).Draw(t, "restructuringVictim") == 0 {
+	switch rapid.IntRange(0, 5).Draw(t, "victimTemplate") {
+	case 0:
 		return genRestructuringHistory(t)
+	case 1:
+		return genMultiStoreValuesHistory(t)
 	}
 	h := txh.GenHistory(t, g)
 	last := &h.Txns[len(h.Txns)-1]
